@@ -51,6 +51,7 @@ class _RecMixin:
         self.quant = quant      # denominators for normals (values rounded to multiples of 1/quant)
         self.overflow = False
         self.iforce = None      # "min" / "max": integer draws forced to the ends of their range
+        self.planted_src = None
         self.planted = None     # replay mode: list of (kind, array) handed back instead of fresh draws
 
     def _rec(self, kind, v):
@@ -80,6 +81,7 @@ class RecRS(_RecMixin, np.random.RandomState):
     def __init__(self, seed, force=None, quant=None):
         np.random.RandomState.__init__(self, seed)
         self._init_rec(force, quant)
+        self.seed0 = seed
 
     def random(self, size=None):
         return self._rec("u", _apply(self.force, super().random_sample(size)))
@@ -98,6 +100,7 @@ class RecGen(_RecMixin, np.random.Generator):
     def __init__(self, seed, force=None, quant=None):
         np.random.Generator.__init__(self, np.random.PCG64(seed))
         self._init_rec(force, quant)
+        self.seed0 = seed
 
     def random(self, size=None, dtype=np.float64, out=None):
         return self._rec("u", _apply(self.force, super().random(size)))
@@ -125,7 +128,17 @@ def load_stream(d):
     rs = (RecGen if d.get("gen") else RecRS)(0)
     rs.planted = [(k, np.array([int(x) for x in vals] if k == "i" else [unfx(x) for x in vals]).reshape(shape))
                   for k, shape, vals in d["log"]]
+    rs.planted_src = d
     return rs
+
+
+def clone_rng(rs):
+    """a second generator that will produce exactly the stream `rs` produced (same class, seed and forcing)"""
+    if rs.planted_src is not None:
+        return load_stream(rs.planted_src)
+    c = type(rs)(rs.seed0, rs.force, rs.quant)
+    c.iforce = rs.iforce
+    return c
 
 
 LOG_CAP = 20000
@@ -142,6 +155,140 @@ def raised_in_library(e):
     from .common import REPO
     root = os.path.join(os.path.realpath(REPO), "quantecon") + os.sep
     return any(os.path.realpath(fr.filename).startswith(root) for fr in traceback.extract_tb(e.__traceback__))
+
+
+def _is_sparse(o):
+    import scipy.sparse
+    return scipy.sparse.issparse(o)
+
+
+def canon(o):
+    """a deep, hashable snapshot of a generated object (bytes of every array it is made of)"""
+    if hasattr(o, "players") and hasattr(o, "nums_actions"):                 # NormalFormGame
+        return ("nfg",) + tuple((p.payoff_array.shape, p.payoff_array.tobytes()) for p in o.players)
+    if hasattr(o, "polymatrix"):                                             # PolymatrixGame
+        return ("poly",) + tuple((k_, np.asarray(v).shape, np.asarray(v).tobytes()) for k_, v in sorted(o.polymatrix.items()))
+    if hasattr(o, "csgraph"):                                                # DiGraph
+        return ("digraph", canon(o.csgraph))
+    if hasattr(o, "R") and hasattr(o, "Q") and hasattr(o, "beta"):           # DiscreteDP
+        return ("ddp", canon(o.R), canon(o.Q), float(o.beta))
+    if hasattr(o, "P") and hasattr(o, "n"):                                  # MarkovChain
+        return ("mc", canon(o.P))
+    if _is_sparse(o):
+        return ("sparse", o.format, o.shape, o.toarray().tobytes())
+    if isinstance(o, (tuple, list)):
+        return tuple(canon(e) for e in o)
+    a = np.asarray(o)
+    return (a.shape, str(a.dtype), a.tobytes())
+
+
+def arrays_of(o):
+    """every ndarray a generated object is made of (sparse: data / indices / indptr / row / col / offsets)"""
+    if isinstance(o, np.ndarray):
+        return [o]
+    if hasattr(o, "players") and hasattr(o, "nums_actions"):
+        return [p.payoff_array for p in o.players]
+    if hasattr(o, "polymatrix"):
+        return [a for v in o.polymatrix.values() for a in arrays_of(v)]
+    if hasattr(o, "csgraph"):
+        return arrays_of(o.csgraph)
+    if hasattr(o, "R") and hasattr(o, "Q") and hasattr(o, "beta"):
+        out = arrays_of(o.R) + arrays_of(o.Q)
+        for nm in ("s_indices", "a_indices"):
+            if isinstance(getattr(o, nm, None), np.ndarray):
+                out.append(getattr(o, nm))
+        return out
+    if hasattr(o, "P") and hasattr(o, "n"):
+        return arrays_of(o.P)
+    if _is_sparse(o):
+        return [getattr(o, nm) for nm in ("data", "indices", "indptr", "row", "col", "offsets", "rows")
+                if isinstance(getattr(o, nm, None), np.ndarray)]
+    if isinstance(o, (tuple, list)):
+        return [a for e in o for a in arrays_of(e)]
+    return []
+
+
+def _inplace(a):
+    """in-place arithmetic on one array (no rebinding)"""
+    if not isinstance(a, np.ndarray) or a.size == 0 or not a.flags.writeable:
+        return False
+    if a.dtype.kind == "f":
+        a *= -3.0
+        a += 0.25
+    elif a.dtype.kind in "iu":
+        a += 1
+    elif a.dtype.kind == "b":
+        np.logical_not(a, out=a)
+    else:
+        return False
+    return True
+
+
+def mutate(o):
+    """edit a generated object in place through its public API: item assignment, in-place arithmetic on its arrays,
+    edits of a sparse matrix's stored data.  Returns the number of edits made."""
+    n = 0
+    if hasattr(o, "players") and hasattr(o, "nums_actions"):
+        try:
+            if o.N == 1:
+                o[0] = 0.75
+            else:
+                o[(0,) * o.N] = tuple(0.25 + 0.5 * i for i in range(o.N))
+            n += 1
+        except (IndexError, ValueError):
+            pass
+        return n + sum(1 for p in o.players if _inplace(p.payoff_array))
+    if hasattr(o, "polymatrix"):
+        return sum(mutate(v) for v in o.polymatrix.values())
+    if hasattr(o, "csgraph"):
+        return mutate(o.csgraph)
+    if hasattr(o, "R") and hasattr(o, "Q") and hasattr(o, "beta"):
+        return mutate(o.R) + mutate(o.Q)
+    if hasattr(o, "P") and hasattr(o, "n"):
+        return mutate(o.P)
+    if _is_sparse(o):
+        if o.format in ("csr", "csc", "coo", "bsr", "dia"):
+            return 1 if _inplace(o.data) else 0
+        if o.shape[0] and o.shape[1]:
+            o[0, 0] = 7.5
+            return 1
+        return 0
+    if isinstance(o, np.ndarray):
+        if o.size and o.flags.writeable and o.dtype.kind in "fiu":
+            o[(0,) * o.ndim] = 7
+            n += 1
+        return n + (1 if _inplace(o) else 0)
+    if isinstance(o, (tuple, list)):
+        return sum(mutate(e) for e in o)
+    return 0
+
+
+def _owner(a):
+    b = a
+    while isinstance(b.base, np.ndarray):
+        b = b.base
+    return b.__array_interface__["data"][0]
+
+
+class Products:
+    """all arrays produced so far in this process (kept alive), indexed by the buffer that owns them"""
+
+    def __init__(self):
+        self.by_owner = {}
+
+    def shared_with_earlier(self, arrs):
+        for a in arrs:
+            if a.size == 0:
+                continue
+            for b, label in self.by_owner.get(_owner(a), ()):
+                if np.shares_memory(a, b):
+                    return label
+        return None
+
+    def add(self, arrs, label):
+        for a in arrs:
+            if a.size:
+                self.by_owner.setdefault(_owner(a), []).append((a, label))
 
 
 def make_force(rng, kind):
@@ -277,13 +424,13 @@ def run(ctx, only=None):
         CASES[fn.__name__] = w
         return w
 
-    def new_rng(kind="raw", quant=None, ikind=None):
+    def new_rng(kind="raw", quant=None, ikind=None, gen=None):
         if only is not None:
             rs = load_stream(only["stream"])
         elif st.get("planted") is not None:
             rs = load_stream(st["planted"])
         else:
-            rs = mk_rng(ctx, kind, quant)
+            rs = mk_rng(ctx, kind, quant, gen)
         if only is None and st.get("planted") is None:
             rs.iforce = ikind
         st["rs"] = rs
@@ -299,6 +446,46 @@ def run(ctx, only=None):
             spec_fail("draw_protocol", "%s made %d '%s' draws, expected %s%d" % (what, len(got), kind, ">=" if at_least else "", n), {})
             raise Skip()
         return got
+
+    products = Products()
+    import importlib
+    for modname in ("quantecon.random.utilities", "quantecon.markov.random", "quantecon.game_theory.random",
+                    "quantecon.game_theory.game_generators.bimatrix_generators", "quantecon._graph_tools",
+                    "quantecon.util.random"):
+        mod = importlib.import_module(modname)
+        products.add([v for v in vars(mod).values() if isinstance(v, np.ndarray)], "module-level state of " + modname)
+
+    def hist(name, rs1, make):
+        """generate / mutate / generate: call the generator, keep a deep snapshot, edit the product in place through
+        its public API, call again with a generator that produces the same stream.  The second product must be
+        bit-identical to the first as it was before the edits, and must share no memory with the first, with any
+        earlier product of this process or with module-level arrays.  Returns the second generator and the second
+        product; all the definition oracles and the model correspondence of the case then judge the SECOND product."""
+        obj1 = make(rs1) if rs1 is not None else make()
+        arrs1 = arrays_of(obj1)
+        shared = products.shared_with_earlier(arrs1)
+        if shared:
+            spec_fail("history_shared_memory", "%s: the product shares memory with %s" % (name, shared), {"generator": name})
+        snap = canon(obj1)
+        products.add(arrs1, name + " (earlier product)")
+        edits = mutate(obj1)
+        ctx.count("history:generate-mutate-generate")
+        ctx.count("history:in-place-edits", edits)
+        rs2 = clone_rng(rs1) if rs1 is not None else None
+        if rs2 is not None:
+            st["rs"] = rs2
+        obj2 = make(rs2) if rs2 is not None else make()
+        arrs2 = arrays_of(obj2)
+        shared = products.shared_with_earlier(arrs2)
+        if shared:
+            spec_fail("history_shared_memory", "%s: after editing an earlier product, the next product shares memory "
+                      "with %s" % (name, shared), {"generator": name})
+        if canon(obj2) != snap:
+            spec_fail("history_not_reproducible", "%s: generate, edit the product in place, generate again with the same "
+                      "arguments and stream -> the second product differs from the first one as generated" % name,
+                      {"generator": name})
+        products.add(arrs2, name + " (earlier product)")
+        return rs2, obj2
 
     orig_spec_fail = ctx.spec_fail
 
@@ -321,7 +508,7 @@ def run(ctx, only=None):
     @case
     def probvec_cases(m, k, kind, parallel):
         rs = new_rng(kind)
-        x = probvec(m, k, random_state=rs, parallel=parallel)
+        rs, x = hist('probvec', rs, lambda rs: probvec(m, k, random_state=rs, parallel=parallel))
         ctx.count("probvec:%s" % kind)
         ctx.count("probvec:parallel" if parallel else "probvec:cpu")
         if x.shape != (m, k):
@@ -366,7 +553,7 @@ def run(ctx, only=None):
             nums = tuple(rng.randint(1, 6) for _ in range(rng.randint(1, 4)))
             kind = rng.choice(kinds)
             rs = new_rng(kind)
-            acts = random_mixed_actions(nums, random_state=rs)
+            rs, acts = hist('random_mixed_actions', rs, lambda rs: random_mixed_actions(nums, random_state=rs))
             us = rs.logs("u")
             if tuple(len(a) for a in acts) != nums or not all(simplex_row_ok(a) for a in acts):
                 ctx.spec_fail("random_mixed_actions", "random_mixed_actions%s -> %s" % (nums, [a.tolist() for a in acts]),
@@ -385,7 +572,7 @@ def run(ctx, only=None):
     @case
     def swr_cases(n, k, trials, kind):
         rs = new_rng(kind)
-        out = sample_without_replacement(n, k, num_trials=trials, random_state=rs)
+        rs, out = hist('sample_without_replacement', rs, lambda rs: sample_without_replacement(n, k, num_trials=trials, random_state=rs))
         ctx.count("swr:%s" % kind)
         r = need_draws(rs, "u", 1, "sample_without_replacement")[0]
         rows = np.atleast_2d(out) if trials is not None else out.reshape(1, -1)
@@ -487,16 +674,16 @@ def run(ctx, only=None):
         if via == "chain":
             fmt = "csr"         # random_markov_chain has no format option
         if via == "matrix":
-            P = random_stochastic_matrix(n, kk, sparse=sparse, format=fmt, random_state=rs)
+            rs, P = hist('random_stochastic_matrix', rs, lambda rs: random_stochastic_matrix(n, kk, sparse=sparse, format=fmt, random_state=rs))
         elif via == "chain":
-            mc = random_markov_chain(n, kk, sparse=sparse, random_state=rs)
+            rs, mc = hist('random_markov_chain', rs, lambda rs: random_markov_chain(n, kk, sparse=sparse, random_state=rs))
             if not isinstance(mc, MarkovChain) or mc.n != n:
                 ctx.spec_fail("random_markov_chain", "not a MarkovChain with n states", {"n": n, "k": k})
             P = mc.P
             if scipy.sparse.issparse(P) != bool(sparse):
                 ctx.spec_fail("random_markov_chain_sparse", "sparse flag not honoured", {"n": n, "k": k, "sparse": sparse})
         else:
-            P = _random_stochastic_matrix(m, n, k=kk, sparse=sparse, format=fmt, random_state=rs)
+            rs, P = hist('_random_stochastic_matrix', rs, lambda rs: _random_stochastic_matrix(m, n, k=kk, sparse=sparse, format=fmt, random_state=rs))
         ctx.count("stoch:%s" % kind)
         ctx.count("stoch:%s%s" % (via, ":sparse-" + fmt if sparse else ":dense"))
         us = need_draws(rs, "u", (1 if k >= 2 else 0) + (1 if k < n else 0), "random_stochastic_matrix")
@@ -551,7 +738,7 @@ def run(ctx, only=None):
             scale = rng.choice([1, 2.5])
             kind = rng.choice(["raw", "dy10", "extreme"])
             rs = new_rng(kind)
-            ddp = random_discrete_dp(ns, na, beta=beta, k=k, scale=scale, sparse=sparse, sa_pair=sa_pair, random_state=rs)
+            rs, ddp = hist('random_discrete_dp', rs, lambda rs: random_discrete_dp(ns, na, beta=beta, k=k, scale=scale, sparse=sparse, sa_pair=sa_pair, random_state=rs))
             ctx.count("ddp:%s%s" % ("sparse" if sparse else "dense", "-sa" if (sa_pair or sparse) else "-product"))
             keff = ns if k is None else k
             replay = {"op": "ddp", "num_states": ns, "num_actions": na, "k": k, "sparse": sparse, "sa_pair": sa_pair,
@@ -592,7 +779,7 @@ def run(ctx, only=None):
     @case
     def tourn_cases(n, kind):
         rs = new_rng(kind)
-        g = random_tournament_graph(n, random_state=rs)
+        rs, g = hist('random_tournament_graph', rs, lambda rs: random_tournament_graph(n, random_state=rs))
         ctx.count("tourn:%s" % kind)
         r = need_draws(rs, "u", 1, "random_tournament_graph")[0]
         A = g.csgraph.toarray().astype(int)
@@ -632,7 +819,7 @@ def run(ctx, only=None):
             nums = tuple(rng.randint(1, 4) for _ in range(rng.randint(1, 3)))
             N = len(nums)
             rs = new_rng()
-            g = random_game(nums, random_state=rs)
+            rs, g = hist('random_game', rs, lambda rs: random_game(nums, random_state=rs))
             us = rs.logs("u")
             ok = isinstance(g, gt.NormalFormGame) and g.nums_actions == nums and len(us) == N
             for i in range(N):
@@ -643,7 +830,7 @@ def run(ctx, only=None):
                               {"nums_actions": nums})
             ctx.count("random_game")
             rs = new_rng()
-            acts = random_pure_actions(nums, random_state=rs)
+            rs, acts = hist('random_pure_actions', rs, lambda rs: random_pure_actions(nums, random_state=rs))
             if not (isinstance(acts, tuple) and len(acts) == N and all(0 <= int(a) < n_ for a, n_ in zip(acts, nums))
                     and [int(a) for a in acts] == [int(v) for v in rs.logs("i")]):
                 ctx.spec_fail("random_pure_actions", "random_pure_actions%s -> %s" % (nums, acts), {"nums_actions": nums})
@@ -652,7 +839,7 @@ def run(ctx, only=None):
                 # (a one-player polymatrix game has no matchups: PolymatrixGame itself rejects it with a KeyError;
                 #  observed, outside the property's domain)
                 rs = new_rng()
-                pg = random_polymatrix_game(nums, random_state=rs)
+                rs, pg = hist('random_polymatrix_game', rs, lambda rs: random_polymatrix_game(nums, random_state=rs))
                 us = rs.logs("u")
                 keys = [(i, j) for i in range(N) for j in range(N) if i != j]
                 okp = pg.N == N and tuple(pg.nums_actions) == nums and set(pg.polymatrix.keys()) == set(keys) and \
@@ -665,7 +852,16 @@ def run(ctx, only=None):
             if N >= 2:
                 rho = rng.choice([-1 / (N - 1), 0.0, 0.5, 1.0])
                 rs = new_rng()
-                g = covariance_game(nums, rho, random_state=rs)
+                try:
+                    rs, g = hist('covariance_game', rs, lambda rs: covariance_game(nums, rho, random_state=rs))
+                except Exception as e:
+                    if not raised_in_library(e):
+                        raise
+                    ctx.count("unexpected-exception:" + type(e).__name__)
+                    ctx.spec_fail("covariance_game_raises", "covariance_game(%s, rho=%r, random_state=<%s>) raised %s: %s"
+                                  % (nums, rho, type(rs).__name__, type(e).__name__, e),
+                                  {"nums_actions": nums, "rho": rho, "seed_kind": type(rs).__name__})
+                    continue
                 z = need_draws(rs, "mvn", 1, "covariance_game")[0]
                 okc = g.nums_actions == nums and z.shape == nums + (N,)
                 for i in range(N):
@@ -676,6 +872,40 @@ def run(ctx, only=None):
                     ctx.spec_fail("covariance_game", "covariance_game%s: payoffs are not the drawn profiles" % (nums,),
                                   {"nums_actions": nums, "rho": rho})
                 ctx.count("covariance_game")
+        # covariance_game at the closed ends of the legal range of rho (singular covariance matrix), for every kind of seed
+        for nums in [(2, 2), (2, 3), (2, 2, 2), (1, 2, 3)]:
+            N = len(nums)
+            for rho in (1.0, -1 / (N - 1)):
+                for seed_kind in ("int", "RandomState", "Generator"):
+                    ctx.count("covariance_game:boundary-rho:" + seed_kind)
+                    try:
+                        if seed_kind == "int":
+                            seed = rng.randrange(2 ** 31)
+                            g = covariance_game(nums, rho, random_state=seed)
+                            g_again = covariance_game(nums, rho, random_state=seed)
+                            okb = canon(g) == canon(g_again)
+                        else:
+                            rs = new_rng(gen=(seed_kind == "Generator"))
+                            rs, g = hist("covariance_game", rs, lambda rs: covariance_game(nums, rho, random_state=rs))
+                            z = need_draws(rs, "mvn", 1, "covariance_game")[0]
+                            okb = z.shape == nums + (N,) and all(
+                                np.array_equal(g.players[i].payoff_array,
+                                               np.moveaxis(z[..., i], list(range(N)), [(a - i) % N for a in range(N)])) for i in range(N))
+                    except Exception as e:
+                        if not raised_in_library(e):
+                            raise
+                        ctx.count("unexpected-exception:" + type(e).__name__)
+                        ctx.spec_fail("covariance_game_boundary_rho", "covariance_game(%s, rho=%r) with %s seed raised %s: %s"
+                                      % (nums, rho, seed_kind, type(e).__name__, e), {"nums_actions": nums, "rho": rho, "seed_kind": seed_kind})
+                        continue
+                    # with a singular covariance the payoffs of a profile are perfectly dependent: equal (rho=1) / summing to 0
+                    prof = np.stack([np.moveaxis(g.players[i].payoff_array, [(a - i) % N for a in range(N)], list(range(N)))
+                                     for i in range(N)], axis=-1)
+                    dep = (np.abs(prof - prof[..., :1]).max() if rho == 1.0 else np.abs(prof.sum(axis=-1)).max()) if prof.size else 0.0
+                    if not okb or g.nums_actions != nums or not np.all(np.isfinite(prof)) or dep > 1e-6:
+                        ctx.spec_fail("covariance_game_boundary_rho", "covariance_game(%s, rho=%r) with %s seed: wrong shape / not the "
+                                      "drawn profiles / not reproducible / dependence defect %g" % (nums, rho, seed_kind, dep),
+                                      {"nums_actions": nums, "rho": rho, "seed_kind": seed_kind})
         for bad_call, name in [(lambda: random_game(()), "random_game()"), (lambda: covariance_game((2,), 0.0), "cov N=1"),
                                (lambda: covariance_game((2, 2), 1.5), "cov rho>1"), (lambda: covariance_game((2, 2, 2), -0.6), "cov rho<-1/2"),
                                (lambda: random_polymatrix_game(()), "polymatrix()")]:
@@ -693,7 +923,7 @@ def run(ctx, only=None):
         rs = new_rng(quant=quant)
         rho = rng.choice([-1.0, -0.5, 0.0, 0.5, 1.0])
         mu = rng.choice([0, 0, 1.5, -2])
-        g = blotto_game(h, t, rho, mu=mu, random_state=rs)
+        rs, g = hist('blotto_game', rs, lambda rs: blotto_game(h, t, rho, mu=mu, random_state=rs))
         values = need_draws(rs, "mvn", 1, "blotto_game")[0]
         ctx.count("blotto:%s" % ("dyadic-values" if quant else "raw-values"))
         actions = [c for c in itertools.product(range(t + 1), repeat=h) if sum(c) == t]   # lexicographic
@@ -732,7 +962,7 @@ def run(ctx, only=None):
     def ranking_cases(n, steps, ikind=None):
         rs = new_rng(ikind=ikind)
         ctx.count("ranking:int-draws-%s" % (ikind or "raw"))
-        g = ranking_game(n, steps, random_state=rs)
+        rs, g = hist('ranking_game', rs, lambda rs: ranking_game(n, steps, random_state=rs))
         sd, cd = [np.asarray(v) for v in need_draws(rs, "i", 2, "ranking_game")]
         ctx.count("ranking")
         A, B = g.players[0].payoff_array, g.players[1].payoff_array
@@ -776,7 +1006,7 @@ def run(ctx, only=None):
     def sgc_block():
         # ---- sgc ------------------------------------------------------------------------------------------
         for k in range(1, ctx.n(4, 6) + 1):
-            g = sgc_game(k)
+            _, g = hist("sgc_game", None, lambda: sgc_game(k))
             n, m = 4 * k - 1, 2 * k - 1
             A, B = g.players[0].payoff_array, g.players[1].payoff_array
             ok = A.shape == (n, n) and B.shape == (n, n)
@@ -802,7 +1032,7 @@ def run(ctx, only=None):
     @case
     def tgame_cases(n, k, kind):
         rs = new_rng(kind)
-        g = tournament_game(n, k, random_state=rs)
+        rs, g = hist('tournament_game', rs, lambda rs: tournament_game(n, k, random_state=rs))
         r = need_draws(rs, "u", 1, "tournament_game")[0]
         ctx.count("tgame:%s" % kind)
         A, B = g.players[0].payoff_array, g.players[1].payoff_array
@@ -879,7 +1109,7 @@ def run(ctx, only=None):
         rs = new_rng(kind, ikind=ikind)
         replay = {"op": "uv", "n": n, "avoid": avoid, "kind": kind}
         try:
-            g = unit_vector_game(n, avoid_pure_nash=avoid, random_state=rs)
+            rs, g = hist('unit_vector_game', rs, lambda rs: unit_vector_game(n, avoid_pure_nash=avoid, random_state=rs))
         except ValueError:
             if not (avoid and n == 1):
                 raise           # not the documented error: reported by the case wrapper as a failing input
@@ -946,23 +1176,6 @@ def run(ctx, only=None):
                    "ERR:ValueError": "other"}[want]
             cases.append(Case("C18 crs seed=%s" % tok, got, tag="crs"))
 
-        def canon(o):
-            if isinstance(o, gt.NormalFormGame):
-                return tuple(p.payoff_array.tobytes() for p in o.players)
-            if isinstance(o, MarkovChain):
-                return canon(o.P)
-            if isinstance(o, DiscreteDP):
-                return (canon(o.R), canon(o.Q), float(o.beta))
-            if isinstance(o, DiGraph):
-                return canon(o.csgraph)
-            if scipy.sparse.issparse(o):
-                return o.toarray().tobytes()
-            if isinstance(o, tuple):
-                return tuple(canon(e) for e in o)
-            if hasattr(o, "polymatrix"):
-                return tuple((k_, np.asarray(v).tobytes()) for k_, v in sorted(o.polymatrix.items()))
-            return np.asarray(o).tobytes()
-
         gens = {
             "probvec": lambda s: probvec(3, 4, random_state=s),
             "sample_without_replacement": lambda s: sample_without_replacement(7, 3, num_trials=2, random_state=s),
@@ -985,7 +1198,19 @@ def run(ctx, only=None):
         for name, f in gens.items():
             for _ in range(ctx.n(1, 5)):
                 seed = rng.randrange(2 ** 31)
-                a, b = canon(f(seed)), canon(f(seed))
+                # int seed, with a history: the first product is edited in place before the second call
+                oa = f(seed)
+                a = canon(oa)
+                sh = products.shared_with_earlier(arrays_of(oa))
+                products.add(arrays_of(oa), name + " (earlier product)")
+                mutate(oa)
+                ob = f(seed)
+                b = canon(ob)
+                sh = sh or products.shared_with_earlier(arrays_of(ob))
+                products.add(arrays_of(ob), name + " (earlier product)")
+                if sh:
+                    ctx.spec_fail("history_shared_memory", "%s(int seed): the product shares memory with %s" % (name, sh),
+                                  {"generator": name, "seed": seed})
                 rs = np.random.RandomState(seed)
                 st0 = rs.get_state()[1].copy(), rs.get_state()[2]
                 c = canon(f(rs))
@@ -993,7 +1218,10 @@ def run(ctx, only=None):
                 adv_rs = not (np.array_equal(st0[0], st1[0]) and st0[1] == st1[1])
                 ge = np.random.default_rng(seed)
                 s0 = ge.bit_generator.state["state"]["state"]
-                d, d2 = canon(f(ge)), canon(f(np.random.default_rng(seed)))
+                od = f(ge)
+                d = canon(od)
+                mutate(od)
+                d2 = canon(f(np.random.default_rng(seed)))
                 adv_g = ge.bit_generator.state["state"]["state"] != s0
                 e = canon(f(rs))      # second call on the advanced RandomState: a different object
                 ctx.count("seeds:checked")
